@@ -144,6 +144,17 @@ def quiet_plugins(rng):
     return out
 
 
+def follow_req(rng, auth):
+    fk, fl = cred_lines(auth, rng)
+    if rng.random() < 0.5:
+        fl = fl + ['Proxy-Connection: keep-alive']
+    fr = mk_first(rng, auth, fl)
+    if fr['m'] == 'CONNECT':
+        fr['m'] = 'GET'
+        fr['form'], fr['path'] = 'abs', '/t'
+    return fr
+
+
 def mk_run(rng, auth=None, force=None, bytewise=False):
     auth = auth or rng.choice(CREDS)
     kind, lines = cred_lines(auth, rng, force)
@@ -154,14 +165,17 @@ def mk_run(rng, auth=None, force=None, bytewise=False):
     else:
         cuts = c09.mk_cuts(rng, len(raw), 0.5)
     evs = [['F', req, rng.random() < 0.95, cuts]]
+    if rng.random() < 0.08 and not bytewise:
+        evs[0].append([follow_req(rng, auth)])           # a follow-up packed behind the first request
     for _ in range(rng.randrange(0, 5)):
         x = rng.random()
         if x < 0.4:
-            fk, fl = cred_lines(auth, rng)
-            fr = mk_first(rng, auth, fl)
-            if fr['m'] == 'CONNECT':
-                fr['m'] = 'GET'
-            evs.append(['C', fr, c09.mk_cuts(rng, len(req_bytes(fr)), 0.3)])
+            fr = follow_req(rng, auth)
+            ev = ['C', fr, c09.mk_cuts(rng, len(req_bytes(fr)), 0.3)]
+            if rng.random() < 0.3:
+                # several follow-up requests, each with its own proxy headers, written back to back
+                ev.append([follow_req(rng, auth) for _ in range(rng.randrange(1, 4))])
+            evs.append(ev)
         elif x < 0.6:
             evs.append(['U', b'HTTP/1.1 200 OK\r\nContent-Length: 2\r\n\r\nhi'.hex()])
         elif x < 0.9:
@@ -215,6 +229,16 @@ def in_quantifier(case):
     if case.get('kind') == 'av':
         return bool(case['auth'])
     return bool(case['auth']) and bool(case['evs']) and case['evs'][0][0] == 'F'
+
+
+def all_reqs(case):
+    out = []
+    for e in case['evs']:
+        if e[0] in ('F', 'C'):
+            out.append(e[1])
+            extra = e[4] if e[0] == 'F' and len(e) > 4 else e[3] if e[0] == 'C' and len(e) > 3 else []
+            out += extra
+    return out
 
 
 def hdr_names(raw):
@@ -285,7 +309,7 @@ def oracle(case):
     if not tunnel:
         if b'proxy-authorization' in hdr_names(allup):
             return 'proxy-authorization-forwarded-to-origin'
-        elsewhere = any(code in L(h) for e in case['evs'] if e[0] in ('F', 'C') for h in e[1]['h']
+        elsewhere = any(code in L(h) for r in all_reqs(case) for h in r['h']
                         if L(h).split(b':', 1)[0].strip(c09.WS).lower() != b'proxy-authorization')
         if code in allup and not elsewhere:
             return 'credentials-forwarded-to-origin'
@@ -314,6 +338,15 @@ def corpus():
                 fol = dict(base('GET', ['Proxy-Authorization: Basic ' + c, 'Proxy-Connection: keep-alive']), path='/two')
                 cs.append({'auth': auth, 'dis': [], 'plugins': plugins, 'vk': 'corpus',
                            'evs': [['F', req, True, []], ['FL'], ['C', fol, []], ['U', '6869'], ['FL'], ['CE']]})
+    good = ['Proxy-Authorization: Basic ' + c, 'Proxy-Connection: keep-alive']
+    two, three, four = (dict(base('GET', good), path='/' + w) for w in ('two', 'three', 'four'))
+    for plugins in ([], rec):
+        cs.append({'auth': auth, 'dis': [], 'plugins': plugins, 'vk': 'packed',
+                   'evs': [['F', base('GET', good), True, []], ['C', two, [], [three, four]], ['FL'], ['C', four, []], ['CE']]})
+        cs.append({'auth': auth, 'dis': [], 'plugins': plugins, 'vk': 'packed',
+                   'evs': [['F', base('GET', good), True, [9], [two]], ['C', three, [30], [four]], ['CE']]})
+        cs.append({'auth': auth, 'dis': [], 'plugins': plugins, 'vk': 'packed',
+                   'evs': [['F', base('POST', good + ['Content-Length: 3']) | {'b': 'abc'}, True, [], [two, three]], ['CE']]})
     raw = req_bytes(base('GET', []))
     cs.append({'auth': auth, 'dis': [], 'plugins': rec, 'vk': 'corpus',
                'evs': [['F', base('GET', []), True, list(range(1, len(raw)))], ['FL']]})
@@ -388,7 +421,9 @@ def describe(case):
     return ['run', 'variant=' + case.get('vk', '?'), 'method=' + req['m'], 'form=' + req['form'],
             'segments=%d' % (len(case['evs'][0][3]) + 1 if len(case['evs'][0][3]) < 4 else 9),
             'plugins=%d' % len(case['plugins']), 'spec=%s' % ('ok' if cred_ok(case, req) else 'reject'),
-            'followups=%d' % sum(1 for e in case['evs'] if e[0] == 'C')]
+            'followups=%d' % sum(1 for e in case['evs'] if e[0] == 'C'),
+            'packed=%d' % sum(len(e[-1]) for e in case['evs'] if e[0] in ('F', 'C') and isinstance(e[-1], list)
+                              and e[-1] and isinstance(e[-1][0], dict))]
 
 
 def nontrivial(case):
